@@ -1,6 +1,6 @@
 """C06 - time-varying coefficients are sampled once per output sample.
 
-M1  TLC: spec/dsp/FilterC06.tla (EXTENDS Filter).  Operational layer: the coefficient stream expressions that
+M1  TLC: spec/dsp/FilterC06.tla (EXTENDS Filter; grids in FilterC06Q.tla / FilterC06T.tla).  Operational layer: the coefficient stream expressions that
     Poly/ZFilter arithmetic builds (with the a0-stream rescaling of LinearFilter.__call__) run by the generated
     generator with one tee branch per use of a source; definition layer: difference equation of module Filter
     over the ELEMENT-WISE coefficient sequences of the expression.  Invariants DiffEq6, TeeAccounting, NthValue,
@@ -254,10 +254,10 @@ ROUTES = [("list", "copy", False), ("zexpr", "copy", True), ("list", "thub", Tru
           ("zexpr", "thub", False)]
 
 
-def m2(ctx, al, cfg, maxlen, maxmem):
+def m2(ctx, al, module, cfg, maxlen, maxmem):
     d = tlc.scratch_dir("c06")
     dump = os.path.join(d, "states")
-    r = tlc.require_ok(tlc.run("FilterC06", cfg, dump=dump), "FilterC06",
+    r = tlc.require_ok(tlc.run(module, cfg, dump=dump), module,
                        need_actions=("Build", "Step6", "InputEnd", "CoefEnd"))
     ctx.add_tlc(r, "FilterC06: stream-expression machine with tee branches == difference equation over "
                    "element-wise coefficient sequences")
@@ -652,9 +652,9 @@ def check(ctx):
         "the all-zero filter and non-causal filters are C04's",
     ]
     if ctx.thorough:
-        m2(ctx, al, "FilterC06_thorough.cfg", 5, 3)
+        m2(ctx, al, "FilterC06T", "FilterC06T.cfg", 5, 3)
         m3(ctx, al, 2500, 30, 4)
     else:
-        m2(ctx, al, "FilterC06_quick.cfg", 4, 3)
+        m2(ctx, al, "FilterC06Q", "FilterC06Q.cfg", 4, 3)
         m3(ctx, al, 250, 24, 4)
     ctx.exhaustive = True
